@@ -18,6 +18,12 @@ type c03Chain struct {
 
 func (c c03Chain) markup(sep string, tag string, prefix string) string {
 	var sb strings.Builder
+	// "tag|extra attributes": the members also carry these attributes (v-once, …)
+	closeTag := tag
+	if i := strings.Index(tag, "|"); i >= 0 {
+		closeTag = tag[:i]
+		tag = tag[:i] + " " + tag[i+1:]
+	}
 	for i, k := range c.kinds {
 		if i > 0 {
 			sb.WriteString(sep)
@@ -25,11 +31,11 @@ func (c c03Chain) markup(sep string, tag string, prefix string) string {
 		cond := fmt.Sprintf("%sc%d", prefix, i)
 		switch k {
 		case "if":
-			fmt.Fprintf(&sb, `<%s v-if="%s">[%sm%d]</%s>`, tag, cond, prefix, i, tag)
+			fmt.Fprintf(&sb, `<%s v-if="%s">[%sm%d]</%s>`, tag, cond, prefix, i, closeTag)
 		case "elseif":
-			fmt.Fprintf(&sb, `<%s v-else-if="%s">[%sm%d]</%s>`, tag, cond, prefix, i, tag)
+			fmt.Fprintf(&sb, `<%s v-else-if="%s">[%sm%d]</%s>`, tag, cond, prefix, i, closeTag)
 		case "else":
-			fmt.Fprintf(&sb, `<%s v-else>[%sm%d]</%s>`, tag, prefix, i, tag)
+			fmt.Fprintf(&sb, `<%s v-else>[%sm%d]</%s>`, tag, prefix, i, closeTag)
 		}
 	}
 	return sb.String()
@@ -198,6 +204,10 @@ func c03Chains(r *Run) {
 			}
 		}
 		r.Add(c03ChainCase(ch, c03Placements[0], "", "none", "template"))
+		// members that also carry v-once: each member is a distinct element reached once per render, so the chain renders as without it
+		r.Add(c03ChainCase(ch, c03Placements[0], "", "none", "template|v-once"))
+		r.Add(c03ChainCase(ch, c03Placements[1], " ", "ws", "p|v-once"))
+		r.Add(c03ChainCase(ch, c03Placements[1], "", "none", "template|v-once"))
 	}
 	// adjacent chains
 	for _, a := range c03ChainShapes(2) {
